@@ -7,6 +7,7 @@ for spec in "$@"; do
     *d) base=${id%d}; wt=/tmp/wt4_$base;;
     *e) base=${id%e}; wt=/tmp/wt5_$base;;
     *f) base=${id%f}; wt=/tmp/wt6_$base;;
+    *g) base=${id%g}; wt=/tmp/wt7_$base;;
   esac
   bash /verif/tools/confirm_seeded.sh $id $wt $tests
 done
